@@ -506,6 +506,27 @@ int main()
       e.line = e.column = 0;
       putParsed(p.parse(data, e), e, p);
     }
+    else if(hxIs(l, "nofile", 0))
+    {
+      // the failure branches of load / save: a path in a directory that does not exist (open fails) and a
+      // directory opened as a file (open succeeds, readAll fails)
+      const char* dir = getenv("TMPDIR");
+      String base = String::fromPrintf("%s", dir && *dir ? dir : "/tmp");
+      String missing = String::fromPrintf("%s/nstd-verif-xml-missing-%d/x.xml", (const char*)base, (int)getpid());
+      Xml::Element e, e2;
+      e.line = e.column = e2.line = e2.column = 0;
+      e.type = String("a");
+      bool l1 = Xml::load(missing, e2);
+      Xml::Parser p1;
+      bool l2 = p1.load(missing, e2);
+      bool msg2 = !p1.getErrorString().isEmpty();
+      bool s1 = Xml::save(e, missing);
+      bool l3 = Xml::load(base, e2);
+      Xml::Parser p2;
+      bool l4 = p2.load(base, e2);
+      bool msg4 = !p2.getErrorString().isEmpty();
+      printf("nofile load=%d pload=%d perr=%d save=%d dirload=%d pdirload=%d pdirerr=%d", (int)l1, (int)l2, (int)msg2, (int)s1, (int)l3, (int)l4, (int)msg4);
+    }
     else if(hxIs(l, "file", 1))
     {
       Xml::Element e;
